@@ -235,6 +235,11 @@ lemma nextDotNone(t string, p int)
 spec fn hostFrom(t string, p int) bool =
   (p < 0 || p > len(t)) ? false :
   nextDot(t, p) < 0 ? tldOK(t[p:]) : (hostLabelOK(t[p:nextDot(t, p)]) && hostFrom(t, nextDot(t, p) + 1))
+// one unfolding of hostFrom at a position whose next dot is known
+lemma hostFromStep(t string, p int, q int)
+  requires 0 <= p && p <= q && q < len(t) && nextDot(t, p) == q
+  ensures hostFrom(t, p) <==> (hostLabelOK(t[p:q]) && hostFrom(t, q + 1))
+
 spec fn domFrom(t string, p int) bool =
   (p < 0 || p > len(t)) ? false :
   nextDot(t, p) < 0 ? tldOK(t[p:]) : (domLabelOK(t[p:nextDot(t, p)]) && domFrom(t, nextDot(t, p) + 1))
@@ -389,6 +394,7 @@ func IsValidHostname
     invariant hostFrom(name, 0) <==> hostFrom(name, off(label) - off(name))
     apply_head nextDotIs(name, off(label) - off(name), off(label) - off(name) + len(label))
     apply_head nextDotNone(name, off(label) - off(name))
+    apply_head hostFromStep(name, off(label) - off(name), off(label) - off(name) + len(label))
     decreases found ? len(tail) + 1 : 0
 
 // ---------------------------------------------------------------------------
